@@ -311,6 +311,10 @@ func init() {
 	runners["C05"] = func(c *Ctx) {
 		runC05(c)
 		// the GCM assembly routines, listing vs CPU vs specification (asmval.go)
+		rule := c.res.Rule
 		runAsmValGCM(c)
+		// the cipher.Block wrappers on overlapping sub-slices (sm4wrap.go; Props/C05Wrap.lean is built by this check)
+		runSM4Wrap(c)
+		c.res.Rule = rule + " || GCM routines: listing vs CPU vs specification || Block wrappers: every offset pair 0..20 x lens x caps of dst/src sub-slices of one buffer, both paths, both directions"
 	}
 }
